@@ -342,7 +342,10 @@ class C11(Check):
             if len(np.unique(nearest)) == npatch and len(sel) >= 2 and abs(cols["w"][nearest == nearest[sel[0]]].sum()) >= 0:
                 kw["patch_centers"] = AngularCoordinates(cen)
             else:
+                # the zero-sum patch cannot be defined through centres here: without centres a patch of zero total
+                # weight is refused by the library (no mean direction), so give it ordinary weights again
                 kw["patch_name"] = "patch"
+                cols["w"][sel] = rng.uniform(0.1, 5, len(sel))
         if "patch_centers" not in kw and rng.random() < 0.4:
             # centres given explicitly in the (-pi, pi] convention; membership still from the index column is not
             # possible then, so use the nearest-centre partition of these centres
